@@ -103,6 +103,26 @@ def directed_nested_paths(rng):
     return b
 
 
+def directed_braces(rng):
+    """templates that use {a,b,...} groups (several alternatives, several groups): the expansion order — hence the order of the
+    definitions in the specification — must not depend on the hash seed"""
+    names = rng.sample(["alpha", "beta", "gamma", "delta", "eps", "zeta", "eta", "theta"], rng.randint(3, 6))
+    tags = rng.sample(["p", "q", "r", "s", "t"], rng.randint(2, 4))
+    L = rng.randint(3, 6)
+    comp = ("declare component Gate(n): x -> y\nsequence x = \"<n>N\"\nsequence y = \"<n>N\"\n"
+            "sequence d{%s} = \"%dN\"\n" % (",".join(names), L) +
+            "strand bot_{%s} = x d%s y\n" % (",".join(tags), names[0]) +
+            "structure W{%s}{1,2} = bot_%s : <2*n+%d>.\n" % (",".join(tags[:2]), tags[0], L))
+    b = progen.Bundle()
+    b.texts["Gate.comp"] = comp
+    b.texts["Pair.sys"] = ("declare system Pair:  -> \nimport Gate\n"
+                           "component {left,right,mid} = Gate(%d): a -> b\n" % rng.randint(2, 5))
+    b.entry = "Pair"
+    b.includes = []
+    b.directed = True
+    return b
+
+
 def run(st, tier, seed):
     res = Result("C18")
     res.rule = ("accepted programs x {pil, des} x configurations (hash seed, 0-4 earlier compiles in the process, invocation directory); "
@@ -128,6 +148,9 @@ def run(st, tier, seed):
         elif i % 8 == 6:
             b = progen.both_orientation_bundle(rng)
             res.count("directed:port-bound-in-both-orientations-in-a-nested-system")
+        elif i % 8 == 1:
+            b = directed_braces(rng)
+            res.count("directed:brace-groups")
         if b is None:
             continue
         if not getattr(b, "directed", False) and any(k.endswith(".sys") for k in b.texts) and rng.random() < 0.6:
